@@ -31,6 +31,7 @@ type osState struct {
 	nextID int
 	faults int
 	bolt   map[string]*boltDB
+	symLen map[string]*Term // files whose length was set by a preallocation that is not materialised (symbolic or > 1 MiB)
 }
 
 func (m *Machine) os() *osState {
@@ -47,6 +48,7 @@ type osEv struct {
 	Op, Path, Note string
 	A, B           uint64
 	OK             bool
+	AT             *Term // A as a term when it is not a constant (a preallocation size taken from a symbolic input)
 }
 
 func (e osEv) String() string {
@@ -57,7 +59,11 @@ func (e osEv) String() string {
 	case "pwrite":
 		r += fmt.Sprintf(" off=%d len=%d", e.A, e.B)
 	case "fallocate":
-		r += fmt.Sprintf(" size=%d extend=%d", e.A, e.B)
+		if e.AT != nil {
+			r += fmt.Sprintf(" size=%s extend=%d", e.AT, e.B)
+		} else {
+			r += fmt.Sprintf(" size=%d extend=%d", e.A, e.B)
+		}
 	}
 	if e.Note != "" {
 		r += " " + e.Note
@@ -322,8 +328,26 @@ func init() {
 	add("go.etcd.io/etcd/client/pkg/v3/fileutil.Preallocate", func(fr *frame, a []value) value {
 		m := fr.m
 		f := osFileOf(m, a[0])
-		size := int(int64(m.concretize("fallocate.size", a[1].(*Term), 64)))
 		extend := a[2].(*Term)
+		if st := a[1].(*Term); (!st.IsConst() || int64(st.Val) > 1<<20) && m.os().faults <= 0 {
+			// a size that depends on a symbolic input (HarnessCreateSizes: "for every requested
+			// size"): the event carries the term, the file's length becomes that term; the
+			// contents are not materialised (such a file is not read or written afterwards)
+			e := osEv{Op: "fallocate", Path: f.name, B: extend.Val, OK: true, AT: st}
+			if st.IsConst() {
+				e.A, e.AT = st.Val, nil
+			}
+			m.osEvents = append(m.osEvents, e)
+			m.fsEvents = append(m.fsEvents, e.String())
+			if extend.Val == 1 {
+				if m.os().symLen == nil {
+					m.os().symLen = map[string]*Term{}
+				}
+				m.os().symLen[f.name] = st
+			}
+			return iface{}
+		}
+		size := int(int64(m.concretize("fallocate.size", a[1].(*Term), 64)))
 		if m.osFault("fallocate", f.name, uint64(size), extend.Val) {
 			return m.osErr("injected fallocate failure")
 		}
@@ -366,7 +390,14 @@ func init() {
 	add("harness/vrt.Events", func(fr *frame, a []value) value {
 		var out []value
 		for _, e := range fr.m.osEvents {
-			out = append(out, structure{e.Op, e.Path, e.Note, BV(64, e.A), BV(64, e.B), Bool(e.OK)})
+			at := BV(64, e.A)
+			if e.AT != nil {
+				at = e.AT
+				if at.W != 64 {
+					at = ZeroExt(64, at)
+				}
+			}
+			out = append(out, structure{e.Op, e.Path, e.Note, at, BV(64, e.B), Bool(e.OK)})
 		}
 		return out
 	})
@@ -381,6 +412,19 @@ func init() {
 	})
 	add("harness/vrt.OSFaultsLeft", func(fr *frame, a []value) value {
 		return BV(64, uint64(fr.m.os().faults))
+	})
+	add("harness/vrt.FileSize", func(fr *frame, a []value) value {
+		if t, ok := fr.m.os().symLen[strOf(a[0])]; ok {
+			if t.W != 64 {
+				t = ZeroExt(64, t)
+			}
+			return t
+		}
+		d, ok := fr.m.os().files[strOf(a[0])]
+		if !ok {
+			return BV(64, ^uint64(0))
+		}
+		return BV(64, uint64(len(d)))
 	})
 	add("harness/vrt.OSFileLen", func(fr *frame, a []value) value {
 		d, ok := fr.m.os().files[strOf(a[0])]
